@@ -187,9 +187,49 @@ def observe_substance(s, inv, px, obs):
         if comp.proportion != row["count"]:
             obs[px + "count." + v] = float("nan")          # the two views of the count must agree
     tot = s.data_composite(quantity=False)["sum"]
-    for c in ("Z", "N", "e", "mass"):
+    for c in ("Z", "N", "e", "mass", "x", "X"):
         obs[px + "sum." + c] = tot[c]
+    # the totals the object reports outside the tables (print(): "Total mass", "Total number"; a Material takes
+    # component_mass as the mass of this substance)
+    obs[px + "total.mass"] = s.component_mass.value("Da")
+    obs[px + "total.number"] = s.proportion_norm
     return obs
+
+
+OTHER_UNIT = {"Da": "g", "g": "kg", "g/cm3": "kg/m3", "cm-3": "m-3", "%": "1"}
+
+
+def perturb_reported(obj):
+    """What a caller may do with what the object hands out: convert every reported Quantity, in place, to another
+    compatible unit (Quantity.to() converts in place and returns self).  Returns the number of conversions."""
+    n = 0
+    def conv(q, unit):
+        nonlocal n
+        if isinstance(q, Quantity):
+            q.to(unit); n += 1
+    for getter in ("data_components", "data_composite", "data_matter"):
+        fn = getattr(obj, getter, None)
+        if fn is None or (getter == "data_matter" and not getattr(obj, "number_density", None)):
+            continue
+        try:
+            table = fn()
+        except Exception:
+            continue
+        if table is None:
+            continue
+        for key in table.keys():
+            row = table[key]
+            for col in ("mass", "M"):
+                if col in row.keys():
+                    conv(row[col], "kg")
+            for col, u in (("n", "m-3"), ("rho", "kg/m3")):
+                if col in row.keys():
+                    conv(row[col], u)
+    for attr, u in (("component_mass", "g"), ("mass_density", "kg/m3"), ("number_density", "m-3"), ("volume", "m3"), ("mass", "kg")):
+        conv(getattr(obj, attr, None), u)
+    for comp in getattr(obj, "components", {}).values():
+        conv(getattr(comp, "component_mass", None), "g")
+    return n
 
 
 # ----------------------------------------------------------------------------- composites and matter (C11, C12)
